@@ -3,6 +3,11 @@
 import json, os
 V = os.path.dirname(os.path.dirname(os.path.abspath(__file__)))
 claims = json.load(open(os.path.join(V, 'harness', 'claims.json')))
+claims['claimed'] = {}
+D = os.path.join(V, 'harness', 'claims.d')
+for f in sorted(os.listdir(D)):
+    if f.endswith('.json'):
+        claims['claimed'][f[:-5]] = json.load(open(os.path.join(D, f)))
 props = [json.loads(l)['id'] for l in open(os.path.join(V, 'properties.jsonl'))]
 checks = []
 for pid in props:
